@@ -38,6 +38,7 @@ namespace opensmt {
 
     bool static inline isIntString(char const *str) {
         if (str[0] == '\0') return false;
+        if (str[0] == '-' and str[1] == '\0') return false; // a sign alone is not a number
 
         for (int i = str[0] == '-' ? 1 : 0; str[i] != '\0'; i++) {
             if (not isDigit(str[i])) {
